@@ -22,8 +22,6 @@ import (
 	"io"
 	"log"
 	"math/big"
-	"os"
-	"runtime/pprof"
 	"sort"
 	"strings"
 
@@ -1182,11 +1180,6 @@ func main() {
 		return
 	}
 	log.SetOutput(io.Discard) // the real code logs every refused event
-	if h.Arg == "prof" {
-		f, _ := os.Create("/tmp/C20/cpu.prof")
-		pprof.StartCPUProfile(f)
-		defer pprof.StopCPUProfile()
-	}
 	if h.Mode == "witness" {
 		h.Cases(func(i int, r *verifx.Rng) { runWitness(h, r, i) })
 		h.Done()
